@@ -1,57 +1,312 @@
 package model
 
-// M-hdr: header well-formedness per declared type/format, in two strengths. Values in neither set are not judged.
+import (
+	"regexp"
+	"sort"
+	"strconv"
+	"strings"
+)
 
-// MustAccept lists values that are valid per the published OpenAPI type/format.
-func MustAccept(typ, format string) []string {
+// M-hdr: header well-formedness per declared type/format. A reference classifier sorts any text into
+// Valid (well-formed per the published OpenAPI type/format: a server must not reject it), Invalid (not well-formed: a
+// required header carrying it must be answered 400) or Unjudged (lenient spellings on which the contract is silent).
+// The probe sets are not hand-picked: they are every string within a stated edit distance of a valid exemplar over a
+// small per-format alphabet (formats), or every string up to a stated length over a token alphabet (integer, number),
+// classified by the reference. Whitespace is not in any alphabet: HTTP strips it from the ends of a field value.
+
+type HdrVerdict int
+
+const (
+	HdrUnjudged HdrVerdict = iota
+	HdrValid
+	HdrInvalid
+)
+
+var (
+	reStrictInt   = regexp.MustCompile(`^-?(0|[1-9][0-9]*)$`)
+	reJSONNumber  = regexp.MustCompile(`^-?(0|[1-9][0-9]*)(\.[0-9]+)?([eE][+-]?[0-9]+)?$`)
+	reSloppyNum   = regexp.MustCompile(`^[+-]?([0-9]+\.?[0-9]*|\.[0-9]+)([eE][+-]?[0-9]+)?$`)
+	reRadixNum    = regexp.MustCompile(`^[+-]?0[xXbBoO][0-9a-fA-F_pP.+-]+$`)
+	reNamedNum    = regexp.MustCompile(`(?i)^[+-]?(inf|infinity|nan)$`)
+	reUUID        = regexp.MustCompile(`^[0-9a-fA-F]{8}-[0-9a-fA-F]{4}-[0-9a-fA-F]{4}-[0-9a-fA-F]{4}-[0-9a-fA-F]{12}$`)
+	reDate        = regexp.MustCompile(`^([0-9]{4})-([0-9]{2})-([0-9]{2})$`)
+	reClock       = `([0-9]{2}):([0-9]{2}):([0-9]{2})(\.[0-9]+)?`
+	reOffset      = `(Z|[+-]([0-9]{2}):([0-9]{2}))`
+	reFullTime    = regexp.MustCompile(`^` + reClock + reOffset + `$`)
+	rePartialTime = regexp.MustCompile(`^` + reClock + `$`)
+	reDateTime    = regexp.MustCompile(`^([0-9]{4})-([0-9]{2})-([0-9]{2})T` + reClock + reOffset + `$`)
+	reDateTimeLax = regexp.MustCompile(`^([0-9]{4})-([0-9]{2})-([0-9]{2})[Tt ]` + reClock + `([Zz]|[+-][0-9]{2}:[0-9]{2})$`)
+	reEmailPlain  = regexp.MustCompile(`^[A-Za-z0-9_%+-]+(\.[A-Za-z0-9_%+-]+)*@[A-Za-z0-9]([A-Za-z0-9-]*[A-Za-z0-9])?(\.[A-Za-z0-9]([A-Za-z0-9-]*[A-Za-z0-9])?)+$`)
+)
+
+func atoi(s string) int { n, _ := strconv.Atoi(s); return n }
+
+func calendarOK(y, m, d int) bool {
+	if m < 1 || m > 12 || d < 1 {
+		return false
+	}
+	leap := (y%4 == 0 && y%100 != 0) || y%400 == 0
+	days := []int{31, 28, 31, 30, 31, 30, 31, 31, 30, 31, 30, 31}
+	if leap {
+		days[1] = 29
+	}
+	return d <= days[m-1]
+}
+
+// clock classifies hh:mm:ss (+ offset hours/minutes when present): Valid, Invalid (a component out of range) or
+// Unjudged (second 60: a leap second is well-formed per RFC 3339 but rarely accepted).
+func clock(h, m, s string, offH, offM string) HdrVerdict {
+	if atoi(h) > 23 || atoi(m) > 59 || atoi(s) > 60 {
+		return HdrInvalid
+	}
+	if offH != "" && (atoi(offH) > 23 || atoi(offM) > 59) {
+		return HdrUnjudged // offset out of range: ill-formed, but the range of an offset is rarely checked; not judged
+	}
+	if atoi(s) == 60 {
+		return HdrUnjudged
+	}
+	return HdrValid
+}
+
+// ClassifyHeader is the reference: is v well-formed for a header declared with this type and format?
+func ClassifyHeader(typ, format, v string) HdrVerdict {
+	if v == "" {
+		return HdrInvalid
+	}
 	switch typ {
 	case "integer":
-		return []string{"42", "0", "-7"}
+		if reStrictInt.MatchString(v) {
+			if len(v) <= 18 {
+				return HdrValid
+			}
+			return HdrUnjudged // beyond 64 bits: an integer for JSON Schema, not for every implementation
+		}
+		if reSloppyNum.MatchString(v) || reRadixNum.MatchString(v) {
+			// +1, 01, 1.0, 1e1 (lenient spellings of an integer), 0x10: not judged — unless the value is plainly fractional
+			if f, err := strconv.ParseFloat(v, 64); err == nil && f != float64(int64(f)) && !strings.ContainsAny(v, "xXbBoO") {
+				return HdrInvalid
+			}
+			return HdrUnjudged
+		}
+		return HdrInvalid
 	case "number":
-		return []string{"1.5", "-2", "1e3", "0"}
+		if reJSONNumber.MatchString(v) {
+			if _, err := strconv.ParseFloat(v, 64); err == nil {
+				return HdrValid
+			}
+			return HdrUnjudged // overflows a double
+		}
+		if reSloppyNum.MatchString(v) || reRadixNum.MatchString(v) || reNamedNum.MatchString(v) {
+			return HdrUnjudged
+		}
+		return HdrInvalid
 	case "boolean":
-		return []string{"true", "false"}
+		switch v {
+		case "true", "false":
+			return HdrValid
+		case "1", "0", "t", "f", "T", "F", "TRUE", "True", "FALSE", "False":
+			return HdrUnjudged // strconv.ParseBool's spellings
+		}
+		return HdrInvalid
 	case "array":
-		return []string{"a,b", "a"}
+		return HdrValid // a non-empty comma-separated list; nothing non-empty is malformed
 	}
 	switch format {
 	case "uuid":
-		return []string{"123e4567-e89b-12d3-a456-426614174000", "123E4567-E89B-12D3-A456-426614174000"}
-	case "email":
-		return []string{"user@example.com", "a.b+c@sub.example.org"}
-	case "date-time":
-		return []string{"2024-01-15T09:30:00Z", "2024-01-15T09:30:00.123+02:00"}
+		if reUUID.MatchString(v) {
+			return HdrValid
+		}
+		return HdrInvalid
 	case "date":
-		return []string{"2024-01-15", "1999-12-31"}
+		if g := reDate.FindStringSubmatch(v); g != nil && calendarOK(atoi(g[1]), atoi(g[2]), atoi(g[3])) {
+			return HdrValid
+		}
+		return HdrInvalid
+	case "date-time":
+		if g := reDateTime.FindStringSubmatch(v); g != nil {
+			if !calendarOK(atoi(g[1]), atoi(g[2]), atoi(g[3])) {
+				return HdrInvalid
+			}
+			return clock(g[4], g[5], g[6], g[9], g[10])
+		}
+		if reDateTimeLax.MatchString(v) {
+			return HdrUnjudged // lower-case t/z or a space separator: RFC 3339 allows them by agreement
+		}
+		return HdrInvalid
 	case "time":
-		return []string{"09:30:00Z", "23:59:59+01:00"}
+		if g := reFullTime.FindStringSubmatch(v); g != nil {
+			return clock(g[1], g[2], g[3], g[6], g[7])
+		}
+		if g := rePartialTime.FindStringSubmatch(v); g != nil {
+			if clock(g[1], g[2], g[3], "", "") == HdrInvalid {
+				return HdrInvalid
+			}
+			return HdrUnjudged // partial-time without offset: not an RFC 3339 full-time, accepted by convention
+		}
+		return HdrInvalid
+	case "email":
+		if strings.Count(v, "@") != 1 && !strings.Contains(v, `"`) {
+			return HdrInvalid
+		}
+		if strings.HasPrefix(v, "@") || strings.HasSuffix(v, "@") {
+			return HdrInvalid
+		}
+		if strings.ContainsAny(v, " \t\r\n") && !strings.Contains(v, `"`) {
+			return HdrInvalid
+		}
+		if reEmailPlain.MatchString(v) {
+			return HdrValid
+		}
+		return HdrUnjudged
 	}
-	return []string{"value", "x y;z=1"}
+	return HdrValid // plain string: every non-empty text is acceptable, nothing is malformed
+}
+
+type hdrSpace struct {
+	exemplars []string
+	subst     string // substitution alphabet
+	insert    string // insertion alphabet
+	tokens    string // for token spaces: every string up to maxLen over these
+	maxLen    int
+	extra     []string
+}
+
+func hdrSpaceFor(typ, format string) hdrSpace {
+	switch typ {
+	case "integer":
+		return hdrSpace{tokens: "01-+.ex", maxLen: 3, extra: []string{"42", "-7", "abc", "12x", "1.5", "9223372036854775808", "123456789012345678"}}
+	case "number":
+		return hdrSpace{tokens: "01-+.ex", maxLen: 3, extra: []string{"1.5", "-2", "1e3", "abc", "1,5", "1.5.2"}}
+	case "boolean":
+		return hdrSpace{extra: []string{"true", "false", "maybe", "yes", "no", "2", "tru", "truee", "ttrue", "on", "off", "-1", "01", "null", "TRUE", "True", "1", "0", "fals", "falsee", "truefalse", "true,false"}}
+	case "array":
+		return hdrSpace{extra: []string{"a,b", "a"}}
+	}
+	switch format {
+	case "uuid":
+		return hdrSpace{exemplars: []string{"123e4567-e89b-12d3-a456-426614174000", "ABCDEF01-2345-6789-abcd-ef0123456789"}, subst: "-gG0f_", insert: "-0",
+			extra: []string{"not-a-uuid", "zzzzzzzz-zzzz-zzzz-zzzz-zzzzzzzzzzzz", "123e4567e89b12d3a456426614174000----", "{123e4567-e89b-12d3-a456-426614174000}"}}
+	case "date":
+		return hdrSpace{exemplars: []string{"2024-01-15", "1999-12-31", "2024-02-29"}, subst: "0139-/x", insert: "0-",
+			extra: []string{"2024-1-5", "15/01/2024", "2024-02-30", "2023-02-29", "2024-00-10", "2024-13-01", "2024-01-00", "2024-01-32"}}
+	case "date-time":
+		return hdrSpace{exemplars: []string{"2024-01-15T09:30:00Z", "2024-01-15T09:30:00.123+02:00"}, subst: "0369-:.TZ+x", insert: "0:Z",
+			extra: []string{"2024-01-15", "yesterday", "2024-13-45T00:00:00Z", "2024-01-15T24:00:00Z", "2024-01-15T09:60:00Z", "2024-01-15T09:30:61Z", "2024-02-30T09:30:00Z", "2024-01-15T09:30:00", "2024-01-15T09:30Z"}}
+	case "time":
+		return hdrSpace{exemplars: []string{"09:30:00Z", "23:59:59+01:00"}, subst: "0369:.Z+-x", insert: "0:Z",
+			extra: []string{"25:00:00Z", "9:30", "noon", "09:60:00Z", "09:30:61Z", "24:00:00Z"}}
+	case "email":
+		return hdrSpace{exemplars: []string{"user@example.com", "a.b+c@sub.example.org"}, subst: "@x", insert: "@",
+			extra: []string{"userexample.com", "@example.com", "user@", "user@@example.com", "us er@example.com", "user@exam ple.com", "a@b@c.org"}}
+	}
+	return hdrSpace{extra: []string{"value", "x y;z=1"}}
+}
+
+// HeaderProbes enumerates the probe space of a declaration: depth 1 = every single substitution / deletion / insertion
+// of each exemplar, every pair of substitutions by the first alphabet character (the format's separator) and every token
+// string up to maxLen; depth 2 = pairs over the first three alphabet characters and token strings one longer. The result is split by the reference classifier; unjudged probes are returned for crash-freedom only.
+func HeaderProbes(typ, format string, depth int) (valid, invalid, unjudged []string) {
+	sp := hdrSpaceFor(typ, format)
+	seen := map[string]bool{}
+	var all []string
+	add := func(s string) {
+		if s == "" || seen[s] || strings.TrimSpace(s) != s {
+			return
+		}
+		seen[s] = true
+		all = append(all, s)
+	}
+	for _, e := range sp.exemplars {
+		add(e)
+	}
+	for _, e := range sp.extra {
+		add(e)
+	}
+	for _, e := range sp.exemplars {
+		b := []byte(e)
+		for i := range b {
+			for _, c := range []byte(sp.subst) {
+				if b[i] != c {
+					m := append([]byte{}, b...)
+					m[i] = c
+					add(string(m))
+				}
+			}
+			add(string(append(append([]byte{}, b[:i]...), b[i+1:]...)))
+		}
+		for i := 0; i <= len(b); i++ {
+			for _, c := range []byte(sp.insert) {
+				add(string(append(append(append([]byte{}, b[:i]...), c), b[i:]...)))
+			}
+		}
+		{
+			// pairs of substitutions: over the first alphabet character at depth 1, over the first three at depth 2
+			two := sp.subst
+			if depth < 2 && len(two) > 1 {
+				two = two[:1]
+			}
+			if len(two) > 3 {
+				two = two[:3]
+			}
+			for i := range b {
+				for j := i + 1; j < len(b); j++ {
+					for _, c := range []byte(two) {
+						for _, d := range []byte(two) {
+							if b[i] != c && b[j] != d {
+								m := append([]byte{}, b...)
+								m[i], m[j] = c, d
+								add(string(m))
+							}
+						}
+					}
+				}
+			}
+		}
+	}
+	if sp.tokens != "" {
+		maxLen := sp.maxLen
+		if depth >= 2 {
+			maxLen++
+		}
+		var rec func(prefix string)
+		rec = func(prefix string) {
+			if prefix != "" {
+				add(prefix)
+			}
+			if len(prefix) == maxLen {
+				return
+			}
+			for _, c := range sp.tokens {
+				rec(prefix + string(c))
+			}
+		}
+		rec("")
+	}
+	sort.Strings(all)
+	for _, s := range all {
+		switch ClassifyHeader(typ, format, s) {
+		case HdrValid:
+			valid = append(valid, s)
+		case HdrInvalid:
+			invalid = append(invalid, s)
+		default:
+			unjudged = append(unjudged, s)
+		}
+	}
+	return
+}
+
+// MustAccept lists values that are valid per the published OpenAPI type/format (quick depth).
+func MustAccept(typ, format string, depth int) []string {
+	v, _, _ := HeaderProbes(typ, format, depth)
+	if len(v) == 0 {
+		return []string{"value", "x y;z=1"}
+	}
+	return v
 }
 
 // MustReject lists values that are not well-formed for the declared type/format (besides absent and empty).
-func MustReject(typ, format string) []string {
-	switch typ {
-	case "integer":
-		return []string{"abc", "1.5", "12x"}
-	case "number":
-		return []string{"abc", "1,5"}
-	case "boolean":
-		return []string{"maybe", "yes", "2"}
-	case "array":
-		return nil
-	}
-	switch format {
-	case "uuid":
-		return []string{"not-a-uuid", "123e4567-e89b-12d3-a456-42661417400", "zzzzzzzz-zzzz-zzzz-zzzz-zzzzzzzzzzzz", "123e4567e89b12d3a456426614174000----"}
-	case "email":
-		return []string{"userexample.com", "@example.com", "user@"}
-	case "date-time":
-		return []string{"2024-01-15", "yesterday", "2024-13-45T00:00:00Z"}
-	case "date":
-		return []string{"2024-1-5", "15/01/2024", "2024-02-30"}
-	case "time":
-		return []string{"25:00:00Z", "9:30", "noon"}
-	}
-	return nil
+func MustReject(typ, format string, depth int) []string {
+	_, inv, _ := HeaderProbes(typ, format, depth)
+	return inv
 }
